@@ -721,3 +721,17 @@ Proof.
            | |- context [if ?t then _ else _] => destruct t; cbn [bind]; try discriminate
            end; auto.
 Qed.
+
+(* ---- the last referenced point after a PAINT statement *)
+Theorem paint_lp_spec text_mode num_attr fg v g st g' :
+  paint_lp text_mode num_attr fg v g st = Ok g' ->
+  let seed := stmt_seed (snd g) st in
+  paint text_mode num_attr fg v (fst g) (fst seed) (snd seed) (s_c st) (s_b st) = Ok (fst g') /\
+  snd g' = (if in_view v (fst seed) (snd seed) then seed else snd g).
+Proof.
+  unfold paint_lp. destruct (stmt_seed (snd g) st) as [sx sy] eqn:Es. cbn [fst snd].
+  destruct (paint text_mode num_attr fg v (fst g) sx sy (s_c st) (s_b st)) as [m'| | |]; cbn [bind];
+    try discriminate.
+  intro H. assert (g' = (m', if in_view v sx sy then (sx, sy) else snd g)) as -> by congruence.
+  cbn [fst snd]. split; reflexivity.
+Qed.
